@@ -74,7 +74,7 @@ func ClearTextPassword(validate func(ctx context.Context, database, username, pa
 
 		if !valid {
 			err = pgerror.WithCode(errors.New("invalid username/password"), codes.InvalidPassword)
-			if werr := ErrorCode(writer, err); werr != nil {
+			if werr := writeErrorResponse(writer, err); werr != nil {
 				return ctx, werr
 			}
 
